@@ -110,14 +110,15 @@ impl Sm9EncMasterKey {
         let t = sm9_u256_hash1(idb, SM9_HID_ENC);
         let mut c1 = SM9_POINT_MONT_P1.point_mul(&t);
         c1 = c1.point_add(&self.ppube);
+        let q = c1;
 
         let mut k = vec![];
         loop {
             // A2: rand r in [1, N-1]
             let r = sm9_random_u256(&SM9_N_MINUS_ONE);
 
-            // A3: C1 = r * Q
-            c1 = c1.point_mul(&r);
+            // A3: C1 = r * Q (from Q itself also after a retry)
+            c1 = q.point_mul(&r);
             let cbuf = c1.to_bytes_be();
             let cbuf = cbuf.as_slice();
 
